@@ -722,7 +722,33 @@ def run(rep):
     # what is appended to the header list for a line: a chain of clean-up operations applied to the line read
     apps = [n for n in ast.walk(r) if isinstance(n, ast.Call) and isinstance(n.func, ast.Attribute) and n.func.attr == "append" and len(n.args) == 1 and
             any(isinstance(x, ast.Name) and x.id == "line" for x in ast.walk(n.args[0]))]
+    # positive refutation: header / data separated by FILTERING every line of the file on its first character (a comprehension or filter()
+    # with a startswith('#') test over readlines() / the file object): a data row whose first field starts with '#' joins the header
+    def _whole_file(e):
+        if isinstance(e, ast.Name):
+            b_ = [n.value for n in ast.walk(r) if isinstance(n, ast.Assign) and any(isinstance(t, ast.Name) and t.id == e.id for t in n.targets)]
+            return len(b_) == 1 and _whole_file(b_[0]) if b_ else any(a.arg == e.id for a in r.args.args) and False
+        if isinstance(e, ast.Call):
+            d_ = ast.unparse(e.func)
+            if d_.endswith(".readlines") or d_.endswith(".splitlines") or (d_.endswith(".split") and ".read()" in d_):
+                return True
+            if d_ in ("list", "tuple", "iter") and len(e.args) == 1:
+                return _whole_file(e.args[0]) or (isinstance(e.args[0], ast.Name) and e.args[0].id in ("fobj", "fo", "f"))
+        return False
+    filt = []
+    for n in ast.walk(r):
+        if isinstance(n, (ast.ListComp, ast.GeneratorExp, ast.SetComp)):
+            for g in n.generators:
+                if _whole_file(g.iter) and any("startswith" in ast.unparse(c_) and "'#'" in ast.unparse(c_) for c_ in g.ifs):
+                    filt.append(n)
+        elif isinstance(n, ast.Call) and ast.unparse(n.func) == "filter" and len(n.args) == 2 and _whole_file(n.args[1]) and "startswith" in ast.unparse(n.args[0]) and "'#'" in ast.unparse(n.args[0]):
+            filt.append(n)
+    rep.check(not filt, "R09.b", rel, "read_csv", "the header is the LEADING run of '#' lines: no selection of '#' lines over the whole file",
+              f"`{ast.unparse(filt[0])[:90]}` filters every line of the file: a data row starting with '#' (an unquoted text field) is taken out of the table" if filt else "",
+              line=filt[0].lineno if filt else r.lineno, firm=True)
     if not apps:
+        if filt:
+            return EXPLANATION
         raise AnalysisError(f"{rel}: read_csv: header strip expression not found")
     WS = set(" \t\r\n\f\v")
     for ap in apps:
